@@ -5,6 +5,7 @@ CONSTANTS
     Band = 256
     Chunks = 16
     ASel = "all"
+    CoreDLt = TRUE
     Emit = FALSE
 INVARIANTS
     OffsetAgrees
